@@ -70,17 +70,12 @@ def sp_matmul(ndarray, affine, shape):
         inner = ndarray.shape[-1]
 
         affine_index = np.arange(affine.size).reshape(affine.shape)
-        dim = len(affine.shape)
-        axes = list(range(dim-2)) + [dim-1, dim-2]
-        index = np.transpose(np.tile(affine_index, row), axes=axes).flatten()
-        index_rep = size // (len(index)//inner)
-        if index_rep > 1:
-            index = np.tile(index, index_rep)
+        batch = np.broadcast_shapes(ndarray.shape[:-2], affine.shape[:-2])
+        full = tuple(batch) + (row, col, inner)
+        index = np.broadcast_to(np.swapaxes(affine_index, -1, -2)[..., None, :, :],
+                                full).flatten()
 
-        data = np.tile(ndarray, col).flatten()
-        data_rep = size // (len(data)//inner)
-        if data_rep > 1:
-            data = np.tile(data, data_rep)
+        data = np.broadcast_to(ndarray[..., :, None, :], full).flatten()
 
         indptr = [inner*i for i in range(size+1)]
 
@@ -106,17 +101,12 @@ def sp_lmatmul(ndarray, affine, shape):
         inner = affine.shape[-1]
 
         affine_index = np.arange(affine.size).reshape(affine.shape)
-        index = np.tile(affine_index, col).flatten()
-        index_rep = size // (len(index)//inner)
-        if index_rep > 1:
-            index = np.tile(index, index_rep)
+        batch = np.broadcast_shapes(affine.shape[:-2], ndarray.shape[:-2])
+        full = tuple(batch) + (row, col, inner)
+        index = np.broadcast_to(affine_index[..., :, None, :], full).flatten()
 
-        dim = len(ndarray.shape)
-        axes = list(range(dim-2)) + [dim-1, dim-2]
-        data = np.transpose(np.tile(ndarray, row), axes=axes).flatten()
-        data_rep = size // (len(data)//inner)
-        if data_rep > 1:
-            data = np.tile(data, data_rep)
+        data = np.broadcast_to(np.swapaxes(ndarray, -1, -2)[..., None, :, :],
+                               full).flatten()
 
         indptr = [inner*i for i in range(size+1)]
 
